@@ -14,14 +14,10 @@ variable {α : Type}
 
 /-! ## Auxiliary notions used in the statements -/
 
-/-- Two instances of the same exact class (hence also of the same un-subscripted class:
-the exact class object determines its `__origin__`). -/
-structure SameClass (a b : Inst α) : Prop where
-  exact : a.exact = b.exact
-  origin : a.origin = b.origin
-
-theorem SameClass.symm {a b : Inst α} (h : SameClass a b) : SameClass b a :=
-  ⟨h.exact.symm, h.origin.symm⟩
+/-! "Same class" for the generated methods means: same UN-SUBSCRIPTED class
+(`a.origin = b.origin`).  Both `__eq__` and `_pane_ord` test `_unsubscripted(self.__class__) !=
+_unsubscripted(other.__class__)`, so `G[int](1)` and `G[Any](2)` (equal `origin`, different `exact`)
+are comparable; the `exact` class object plays no role in any of the generated methods. -/
 
 /-- `eqv`/`gt` (Python `==`/`>` on the field values) form a strict total order on `α`:
 `eqv` is an equivalence, exactly one of `gt x y`, `eqv x y`, `gt y x` holds, and `gt`
@@ -272,9 +268,10 @@ theorem ordLoop_pos_iff (eqv gt : α → α → Bool) (zs : List (FieldFlags × 
     ordLoop eqv gt zs > 0 ↔ ordLoop eqv gt zs = 1 := by
   rcases ordLoop_range eqv gt zs with h | h | h <;> omega
 
-/-- For same exact class the result of `_pane_ord` is the loop's result. -/
+/-- For the same un-subscripted class (whatever the exact classes) the result of `_pane_ord` is the
+loop's result. -/
 theorem paneOrd_same (fs : List FieldFlags) (eqv gt : α → α → Bool) {a b : Inst α}
-    (h : a.exact = b.exact) :
+    (h : a.origin = b.origin) :
     paneOrd fs eqv gt a b = some (ordLoop eqv gt (zip3 fs a.vals b.vals)) := by
   simp [paneOrd, h]
 
@@ -348,8 +345,8 @@ theorem C16_eq_trans (fs : List FieldFlags) (eqv : α → α → Bool)
 /-! ## C16: `_pane_ord` and the rich comparisons -/
 
 theorem C16_ord_same_class_only (fs : List FieldFlags) (eqv gt : α → α → Bool) (a b : Inst α) :
-    (a.exact ≠ b.exact → paneOrd fs eqv gt a b = none) ∧
-    (a.exact = b.exact →
+    (a.origin ≠ b.origin → paneOrd fs eqv gt a b = none) ∧
+    (a.origin = b.origin →
       ∃ o : Int, (o = -1 ∨ o = 0 ∨ o = 1) ∧ paneOrd fs eqv gt a b = some o) := by
   constructor
   · intro h
@@ -358,24 +355,24 @@ theorem C16_ord_same_class_only (fs : List FieldFlags) (eqv gt : α → α → B
     exact ⟨_, ordLoop_range eqv gt _, paneOrd_same fs eqv gt h⟩
 
 /-- All four rich comparisons return `NotImplemented` exactly when `_pane_ord` does, i.e.
-exactly when the exact classes differ. -/
+exactly when the un-subscripted classes differ (the generic parameters are ignored). -/
 theorem C16_notImplemented_iff (fs : List FieldFlags) (eqv gt : α → α → Bool) (a b : Inst α) :
-    (paneOrd fs eqv gt a b = none ↔ a.exact ≠ b.exact) ∧
-    (lt fs eqv gt a b = none ↔ a.exact ≠ b.exact) ∧
-    (le fs eqv gt a b = none ↔ a.exact ≠ b.exact) ∧
-    (gt' fs eqv gt a b = none ↔ a.exact ≠ b.exact) ∧
-    (ge fs eqv gt a b = none ↔ a.exact ≠ b.exact) := by
-  by_cases h : a.exact = b.exact <;> simp [lt, le, gt', ge, paneOrd, h]
+    (paneOrd fs eqv gt a b = none ↔ a.origin ≠ b.origin) ∧
+    (lt fs eqv gt a b = none ↔ a.origin ≠ b.origin) ∧
+    (le fs eqv gt a b = none ↔ a.origin ≠ b.origin) ∧
+    (gt' fs eqv gt a b = none ↔ a.origin ≠ b.origin) ∧
+    (ge fs eqv gt a b = none ↔ a.origin ≠ b.origin) := by
+  by_cases h : a.origin = b.origin <;> simp [lt, le, gt', ge, paneOrd, h]
 
 /-- `lt` in terms of the loop. -/
 theorem lt_iff_ordLoop (fs : List FieldFlags) (eqv gt : α → α → Bool) {a b : Inst α}
-    (h : a.exact = b.exact) :
+    (h : a.origin = b.origin) :
     lt fs eqv gt a b = some true ↔ ordLoop eqv gt (zip3 fs a.vals b.vals) = -1 := by
   simp [lt, paneOrd_same fs eqv gt h, ordLoop_neg_iff]
 
 /-- `gt'` in terms of the loop. -/
 theorem gt'_iff_ordLoop (fs : List FieldFlags) (eqv gt : α → α → Bool) {a b : Inst α}
-    (h : a.exact = b.exact) :
+    (h : a.origin = b.origin) :
     gt' fs eqv gt a b = some true ↔ ordLoop eqv gt (zip3 fs a.vals b.vals) = 1 := by
   have := ordLoop_pos_iff eqv gt (zip3 fs a.vals b.vals)
   simp only [gt_iff_lt] at this
@@ -385,7 +382,7 @@ theorem gt'_iff_ordLoop (fs : List FieldFlags) (eqv gt : α → α → Bool) {a 
 there is a compare-field `i` with all earlier compare-fields `==`, and at `i` the values are
 neither `==` nor `>`. -/
 theorem C16_lt_lex (fs : List FieldFlags) (eqv gt : α → α → Bool) (a b : Inst α)
-    (h : a.exact = b.exact) :
+    (h : a.origin = b.origin) :
     lt fs eqv gt a b = some true ↔
       ∃ i, ∃ (h₁ : i < fs.length) (h₂ : i < a.vals.length) (h₃ : i < b.vals.length),
         fs[i].compare = true ∧
@@ -396,14 +393,14 @@ theorem C16_lt_lex (fs : List FieldFlags) (eqv gt : α → α → Bool) (a b : I
 
 /-- `__lt__` is `LexLt` on the zipped compare-projections. -/
 theorem C16_lt_lexLt (fs : List FieldFlags) (eqv gt : α → α → Bool) (a b : Inst α)
-    (h : a.exact = b.exact) :
+    (h : a.origin = b.origin) :
     lt fs eqv gt a b = some true ↔ LexLt eqv gt (cmpPairs fs a.vals b.vals) := by
   rw [lt_iff_ordLoop fs eqv gt h, ordLoop_eq_neg_one_iff, cmpPairs_eq_proj, LexLt,
     lexFirst_proj_iff]
 
 /-- `__gt__` is `LexGt` on the zipped compare-projections, and in index form. -/
 theorem C16_gt_lex (fs : List FieldFlags) (eqv gt : α → α → Bool) (a b : Inst α)
-    (h : a.exact = b.exact) :
+    (h : a.origin = b.origin) :
     (gt' fs eqv gt a b = some true ↔ LexGt eqv gt (cmpPairs fs a.vals b.vals)) ∧
     (gt' fs eqv gt a b = some true ↔
       ∃ i, ∃ (h₁ : i < fs.length) (h₂ : i < a.vals.length) (h₃ : i < b.vals.length),
@@ -426,7 +423,7 @@ theorem C16_LexLt_iff (eqv gt : α → α → Bool) (ps : List (α × α)) :
 
 /-- `__le__`, `__gt__`, `__ge__` in terms of `__lt__` and `_pane_ord`. -/
 theorem C16_le_gt_ge_derived (fs : List FieldFlags) (eqv gt : α → α → Bool) (a b : Inst α)
-    (h : a.exact = b.exact) :
+    (h : a.origin = b.origin) :
     (le fs eqv gt a b = some true ↔
       lt fs eqv gt a b = some true ∨ paneOrd fs eqv gt a b = some 0) ∧
     (gt' fs eqv gt a b = some true ↔ paneOrd fs eqv gt a b = some 1) ∧
@@ -441,20 +438,20 @@ theorem C16_le_gt_ge_derived (fs : List FieldFlags) (eqv gt : α → α → Bool
 
 /-- `_pane_ord` returns `0` exactly when `__eq__` holds (same class). -/
 theorem C16_order_eq_consistent (fs : List FieldFlags) (eqv gt : α → α → Bool) (a b : Inst α)
-    (h : SameClass a b) :
+    (h : a.origin = b.origin) :
     paneOrd fs eqv gt a b = some 0 ↔ instEq fs eqv a b = true := by
-  rw [paneOrd_same fs eqv gt h.exact, Option.some.injEq, ordLoop_eq_zero_iff, ← cmpPairs_eq_proj]
-  simp [instEq, h.origin]
+  rw [paneOrd_same fs eqv gt h, Option.some.injEq, ordLoop_eq_zero_iff, ← cmpPairs_eq_proj]
+  simp [instEq, h]
 
 /-- Trichotomy of the generated methods: for instances of the same class exactly one of
 `a < b`, `a == b`, `a > b` is `True`.  (This needs no hypothesis on `eqv`/`gt` at all: it holds
 by construction of `_pane_ord`.  The order-theoretic content is in `C16_trichotomy_swap`.) -/
 theorem C16_trichotomy (fs : List FieldFlags) (eqv gt : α → α → Bool) (a b : Inst α)
-    (h : SameClass a b) :
+    (h : a.origin = b.origin) :
     ExactlyOne (lt fs eqv gt a b = some true) (instEq fs eqv a b = true)
       (gt' fs eqv gt a b = some true) := by
-  rw [← C16_order_eq_consistent fs eqv gt a b h, lt_iff_ordLoop fs eqv gt h.exact,
-    gt'_iff_ordLoop fs eqv gt h.exact, paneOrd_same fs eqv gt h.exact, Option.some.injEq]
+  rw [← C16_order_eq_consistent fs eqv gt a b h, lt_iff_ordLoop fs eqv gt h,
+    gt'_iff_ordLoop fs eqv gt h, paneOrd_same fs eqv gt h, Option.some.injEq]
   unfold ExactlyOne
   rcases ordLoop_range eqv gt (zip3 fs a.vals b.vals) with hr | hr | hr <;> rw [hr] <;> decide
 
@@ -495,7 +492,7 @@ theorem ordLoop_swap {eqv gt : α → α → Bool} (st : StrictTotal eqv gt)
 
 /-- Under a strict total order on the field values, `a > b` is `b < a` (and vice versa). -/
 theorem C16_gt_iff_lt_swap (fs : List FieldFlags) {eqv gt : α → α → Bool}
-    (st : StrictTotal eqv gt) (a b : Inst α) (h : a.exact = b.exact) :
+    (st : StrictTotal eqv gt) (a b : Inst α) (h : a.origin = b.origin) :
     (gt' fs eqv gt a b = some true ↔ lt fs eqv gt b a = some true) ∧
     (lt fs eqv gt a b = some true ↔ gt' fs eqv gt b a = some true) := by
   rw [gt'_iff_ordLoop fs eqv gt h, lt_iff_ordLoop fs eqv gt h.symm,
@@ -506,10 +503,10 @@ theorem C16_gt_iff_lt_swap (fs : List FieldFlags) {eqv gt : α → α → Bool}
 /-- Trichotomy as a law of the order `<` itself: for instances of the same class over
 strictly totally ordered field values, exactly one of `a < b`, `a == b`, `b < a` is `True`. -/
 theorem C16_trichotomy_swap (fs : List FieldFlags) {eqv gt : α → α → Bool}
-    (st : StrictTotal eqv gt) (a b : Inst α) (h : SameClass a b) :
+    (st : StrictTotal eqv gt) (a b : Inst α) (h : a.origin = b.origin) :
     ExactlyOne (lt fs eqv gt a b = some true) (instEq fs eqv a b = true)
       (lt fs eqv gt b a = some true) := by
-  rw [← (C16_gt_iff_lt_swap fs st a b h.exact).1]
+  rw [← (C16_gt_iff_lt_swap fs st a b h).1]
   exact C16_trichotomy fs eqv gt a b h
 
 /-! ## C16: `__hash__` -/
@@ -649,8 +646,10 @@ theorem int_hash_respects : ∀ x y, ieq x y = true → ihsh x = ihsh y := by
 
 theorem fs_hash_sub_compare : ∀ f ∈ fs, f.hash = true → f.compare = true := by decide
 
-example : SameClass p123 p193 := ⟨rfl, rfl⟩
-example : SameClass p123 p124 := ⟨rfl, rfl⟩
+example : p123.origin = p193.origin := rfl
+example : p123.origin = p124.origin := rfl
+-- same un-subscripted class, different exact class (`C` / `C[int]`)
+example : p123.origin = g123.origin ∧ p123.exact ≠ g123.exact := by decide
 example : p123.vals.length = fs.length ∧ p193.vals.length = fs.length := by decide
 
 -- eq: holds although `y` differs; fails on a compared field; holds across `C` / `C[int]`;
@@ -666,10 +665,13 @@ example : instEq fs ieq p193 p123 = true :=
 example : instEq fs ieq p123 g123 = true :=
   C16_eq_trans fs ieq int_strictTotal.trans p123 p193 g123 (by decide) (by decide) (by decide)
 
--- ord: NotImplemented across `C` / `C[int]` even though `==` is `True` there
-example : paneOrd fs ieq igt p123 g123 = none := by decide
-example : paneOrd fs ieq igt p123 g123 = none :=
-  (C16_ord_same_class_only fs ieq igt p123 g123).1 (by decide)
+-- ord: defined across `C` / `C[int]` (as `==` is), NotImplemented across unrelated classes
+example : paneOrd fs ieq igt p123 g123 = some 0 := by decide
+example : ∃ o : Int, (o = -1 ∨ o = 0 ∨ o = 1) ∧ paneOrd fs ieq igt p123 g123 = some o :=
+  (C16_ord_same_class_only fs ieq igt p123 g123).2 rfl
+example : paneOrd fs ieq igt p123 q123 = none := by decide
+example : paneOrd fs ieq igt p123 q123 = none :=
+  (C16_ord_same_class_only fs ieq igt p123 q123).1 (by decide)
 example : paneOrd fs ieq igt p123 p193 = some 0 := by decide
 example : paneOrd fs ieq igt p123 p124 = some (-1) := by decide
 example : paneOrd fs ieq igt p203 p124 = some 1 := by decide
@@ -692,13 +694,13 @@ example : cmpPairs fs p123.vals p124.vals = [(1, 1), (3, 4)] := by decide
 -- trichotomy: each of the three alternatives occurs
 example : ExactlyOne (lt fs ieq igt p123 p124 = some true) (instEq fs ieq p123 p124 = true)
     (lt fs ieq igt p124 p123 = some true) :=
-  C16_trichotomy_swap fs int_strictTotal p123 p124 ⟨rfl, rfl⟩
+  C16_trichotomy_swap fs int_strictTotal p123 p124 rfl
 example : lt fs ieq igt p123 p124 = some true ∧ instEq fs ieq p123 p193 = true ∧
     gt' fs ieq igt p124 p123 = some true := by decide
 
 -- order/eq consistency
 example : paneOrd fs ieq igt p123 p193 = some 0 :=
-  (C16_order_eq_consistent fs ieq igt p123 p193 ⟨rfl, rfl⟩).2 (by decide)
+  (C16_order_eq_consistent fs ieq igt p123 p193 rfl).2 (by decide)
 
 -- hash: equal instances (differing in the non-hashed `y`) hash equal
 example : instHash fs ihsh icomb p123 = instHash fs ihsh icomb p193 :=
